@@ -317,6 +317,10 @@ func oracleClosed(c ClosedCase, o *h.Obs) *h.Fail {
 	}
 	src := renderClosed(c)
 	o.Key = src
+	if hangSeen["closed"] && !ctxRef.InReplay() {
+		o.Excluded = "a run that does not finish was already reported by this process"
+		return nil
+	}
 	o.NonTrivial = nontrivial
 	o.Class("closed_elem_" + c.Ch.Type)
 	o.Class("closed_" + bufClass(c.Ch.Buf))
@@ -341,7 +345,10 @@ func oracleClosed(c ClosedCase, o *h.Obs) *h.Fail {
 	case r.runaway:
 		return h.Failf("C16|runaway-loop|closed", "for-in over the closed channel ran more iterations than items were buffered\nsource:\n%s", src)
 	case r.stuck != "":
-		return h.Failf("C16|stuck|closed", "a straight-line program whose operations never block in the model did not finish (%s)\nsource:\n%s", r.stuck, src)
+		f := h.Failf("C16|stuck|closed", "a straight-line program whose operations never block in the model did not finish (%s)\nsource:\n%s", r.stuck, src)
+		f.NoShrink = true // every re-execution waits for the deadline again
+		hangSeen["closed"] = true
+		return f
 	}
 	bare := len(c.Ops) > 0 && c.Ops[len(c.Ops)-1].Bare
 	result := r.value
